@@ -693,7 +693,14 @@ class C06(Check):
         """Every kind of declaration / variables block ending in every kind of value (escaped blank, string, function,
         comment, ...) under the default record, every single preference and the minified preset: the end of a block is
         where the last-semicolon omission, the closing brace and the final strip of the block text meet."""
-        recs = [{}] + self.singles(im) + [diff_prefs(im.minified, im.defaults),
+        singles = self.singles(im)
+        if ctx.n(True, False):
+            # quick tier: one alternative per preference (the first: the empty string for the layout strings)
+            first = {}
+            for d in singles:
+                first.setdefault(next(iter(d)), d)
+            singles = list(first.values())
+        recs = [{}] + singles + [diff_prefs(im.minified, im.defaults),
                                          {'resolveVariables': False, 'omitLastSemicolon': False},
                                          {'resolveVariables': False, 'lineSeparator': ''},
                                          {'resolveVariables': False, 'keepComments': False}]
